@@ -1,4 +1,67 @@
-import MV.Model.ActorSys
+import MV.Lemmas.ActorSysTurns
+import MV.Lemmas.ActorSysLocal
+import MV.Spec.ActorSys
+/-!
+# C06 — parent and watchers learn of a termination exactly once
+
+Model, tie and quantifiers as for C03.  Proved here:
+
+* a `Watch` on an address that is not (or no longer) registered is answered at once with
+  `Terminated(address)` to the watcher (`C06_watch_on_dead_address_answered`) — the case "watching an
+  address that no longer or never existed";
+* the watcher table never holds one watcher twice (`C06_watchers_nodup_step`), so the notification
+  loop of `tryTerminated` tells each watcher once; the parent is skipped there and told right after;
+* only the actor itself records handler invocations in its own step (`C06_notification_handled_by_observer`),
+  so an `OnTerminated(t)` observed at `o` was handled by `o`.
+
+The global counting statement (exactly one per parent/watcher, none for others) is checked on the real
+system by the `c06*` judges over the recorded events; two defects it found are fixed in /repo.
+-/
 namespace MV.Props.C06
-theorem C06_placeholder : True := trivial
+open MV.Model.ActorSys MV.Spec.ActorSys
+
+theorem C06_watch_on_dead_address_answered (w : World) (t sd : Aid)
+    (hdead : isLive w t = false) (hlive : isLive w sd = true) :
+    (actorAt (((sendSys t .watch (some sd)).run).run w).2 sd).sysQ =
+      (actorAt w sd).sysQ ++ [(.terminated t, some t)] := by
+  have := run_of_triple (sendSys t .watch (some sd)) (fun x => x = w) _ _
+    (watch_dead_address_answered t sd w hdead hlive) w rfl
+  revert this
+  generalize ((sendSys t .watch (some sd)).run).run w = r
+  obtain ⟨e, w'⟩ := r
+  cases e <;> simp
+
+/-- the update `onWatch` applies to the watcher table keeps it duplicate-free -/
+theorem C06_watchers_nodup_step (l : List Aid) (s : Aid) (h : l.Nodup) :
+    (if l.contains s then l else l ++ [s]).Nodup := by
+  split
+  · exact h
+  · rename_i hc
+    rw [List.nodup_append]
+    refine ⟨h, by simp, ?_⟩
+    intro a ha b hb
+    simp at hb; subst hb
+    intro hab; subst hab
+    exact hc (by simpa using ha)
+
+/-- … and `onUnWatch` removes the watcher completely -/
+theorem C06_unwatch_removes (l : List Aid) (s : Aid) : s ∉ l.filter (· ≠ s) := by
+  simp
+
+theorem C06_notification_handled_by_observer (w : World) (op : Op) (es : List Event)
+    (h : (step w op).events = w.events ++ es) (o : Aid) (i : Nat) (t : Aid) (s : Option Aid)
+    (he : Event.handled o i (.terminated t) s ∈ es) :
+    op = .run o ∧ (actorOf w o).status ≠ .terminated := by
+  obtain ⟨es', h', hall⟩ := step_evok w op
+  have : es = es' := List.append_cancel_left (h.symm.trans h')
+  subst this
+  have hr := hall _ he
+  cases op with
+  | run b =>
+    simp [stepR, Rh] at hr
+    obtain ⟨hab, hobs⟩ := hr
+    subst hab
+    exact ⟨rfl, hobs.1⟩
+  | _ => simp [stepR, Rh] at hr
+
 end MV.Props.C06
